@@ -93,14 +93,92 @@ class Gen:
     def mat(self, r, c, lo=-2, hi=2):
         return [[float(self.rng.randint(lo, hi)) for _ in range(c)] for _ in range(r)]
 
-    def new_arr(self, shape, vals=None, dtype="float64"):
+    def new_arr(self, shape, vals=None, dtype="float64", plain=False):
+        """a caller-owned ndarray with the given content: a plain array or (about one in five) a
+        view of a larger pool array (slice with guard cells, every second element, reshaped,
+        transposed), so that writes through the argument and writes next to it are both seen"""
         rng = self.rng
+        shape = tuple(shape)
         if vals is None:
             if len(shape) == 1:
                 vals = [float(rng.randint(-3, 3)) for _ in range(shape[0])]
             else:
                 vals = self.mat(shape[0], shape[1])
-        return self.new("arr", {"v": vals, "dtype": dtype}, {"shape": list(shape), "dtype": dtype}, "a")
+        if plain or 0 in shape or rng.random() >= 0.2:
+            spec = {"v": vals, "dtype": dtype}
+            if len(shape) == 2 and min(shape) > 1 and rng.random() < 0.1:
+                spec["order"] = "F"
+            return self.new("arr", spec, {"shape": list(shape), "dtype": dtype}, "a")
+        return self.new_view(shape, vals, dtype)
+
+    def new_view(self, shape, vals, dtype="float64"):
+        rng = self.rng
+        pad = 9.0
+        if len(shape) == 1:
+            n = shape[0]
+            how = rng.choice(["slice", "slice", "stride", "reshape"])
+            if how == "slice":
+                base, spec = [pad] + list(vals) + [pad], {"how": "slice", "off": [1]}
+            elif how == "stride":
+                base, spec = [x for v in vals for x in (v, pad)], {"how": "stride"}
+            else:
+                base = [[v] for v in vals] if rng.random() < 0.5 else [list(vals)]
+                spec = {"how": "reshape"}
+        else:
+            r, c = shape
+            how = rng.choice(["slice", "T", "reshape"])
+            if how == "slice":
+                base = [list(row) + [pad] for row in vals] + [[pad] * (c + 1)]
+                spec = {"how": "slice", "off": [0, 0]}
+            elif how == "T":
+                base, spec = [[vals[i][j] for i in range(r)] for j in range(c)], {"how": "T"}
+            else:
+                base, spec = [x for row in vals for x in row], {"how": "reshape"}
+        b = self.new("arr", {"v": base, "dtype": dtype}, {"shape": None, "dtype": dtype, "base": True}, "b")
+        spec.update({"base": ref(b), "shape": list(shape)})
+        return self.new("view", spec, {"shape": list(shape), "dtype": dtype, "view": spec["how"]}, "v")
+
+    def new_list(self, vals):
+        """a caller-owned list (labels, indices, numbers, nested lists)"""
+        return self.new("list", {"v": vals}, {}, "l")
+
+    def new_dict(self, d):
+        return self.new("dict", {"v": d}, {}, "d")
+
+    def vec(self, n, vals=None, listok=True, col=True):
+        """an argument expression for a vector the caller owns: float ndarray (plain or view),
+        integer ndarray, column array, pool list, or a literal list"""
+        rng = self.rng
+        if vals is None:
+            vals = [float(rng.randint(-3, 3)) for _ in range(n)]
+        r = rng.random()
+        if r < 0.55:
+            return ref(self.new_arr((n,), vals))
+        if r < 0.65 and col:
+            return ref(self.new_arr((n, 1), [[v] for v in vals]))
+        if r < 0.75 and all(float(v).is_integer() for v in vals):
+            return ref(self.new_arr((n,), vals, dtype="int64"))
+        if r < 0.75:
+            return ref(self.new_arr((n,), vals))
+        if not listok:
+            return ref(self.new_arr((n,), vals, plain=True))
+        if r < 0.88:
+            return ref(self.new_list(list(vals)))
+        return list(vals)
+
+    def idx_list(self, idx):
+        """index lists (iu / iy / ix / idx, elim, keep ...) as the caller may hold them"""
+        r = self.rng.random()
+        if r < 0.45:
+            return list(idx)
+        if r < 0.75:
+            return ref(self.new_list(list(idx)))
+        return ref(self.new_arr((len(idx),), [float(i) for i in idx], dtype="int64", plain=r < 0.9))
+
+    def labels(self, prefix, n):
+        """signal label lists: literal or owned by the caller"""
+        lab = ["%s%d" % (prefix, i) for i in range(n)]
+        return ref(self.new_list(lab)) if self.rng.random() < 0.6 else lab
 
     def stable_A(self, n):
         A = [[0.0] * n for _ in range(n)]
@@ -135,6 +213,10 @@ class Gen:
         kw = {}
         if name or rng.random() < 0.2:
             kw["name"] = name or self.fresh("S")
+        if rng.random() < 0.12:
+            for key, pre, cnt in rng.sample([("inputs", "u_", m), ("outputs", "y_", p), ("states", "x_", n)],
+                                            rng.choice([1, 2, 3])):
+                kw[key] = self.labels(pre, cnt)
         if kw:
             spec["kw"] = kw
         return self.new("ss", spec, {"p": p, "m": m, "n": n, "dt": dt, "name": kw.get("name")}, "s")
@@ -168,6 +250,10 @@ class Gen:
         kw = {}
         if name or rng.random() < 0.2:
             kw["name"] = name or self.fresh("G")
+        if rng.random() < 0.1:
+            kw["inputs"] = self.labels("u_", m)
+        if rng.random() < 0.1:
+            kw["outputs"] = self.labels("y_", p)
         if kw:
             spec["kw"] = kw
         return self.new("tf", spec, {"p": p, "m": m, "dt": dt, "name": kw.get("name")}, "g")
@@ -202,14 +288,22 @@ class Gen:
         s = self.new("frd", {"data": d, "omega": om}, {"p": 1, "m": 1, "dt": "C", "omega": omega}, "f")
         return s
 
-    def new_nl(self, static):
+    def new_nl(self, static, kind=None):
         rng = self.rng
+        kind = kind or ("nls" if static else "nld")
         params = {k: float(rng.randint(1, 3)) for k in rng.sample(["a", "b", "c"], rng.randint(0, 2))}
         kw = {"name": self.fresh("N")} if rng.random() < 0.3 else {}
         spec = {"params": params}
+        if rng.random() < 0.25:          # the caller keeps the parameter dictionary
+            spec = {"pref": ref(self.new_dict(params))}
+        n, m, p = {"nls": (0, 1, 1), "nld": (1, 1, 1), "nld2": (2, 1, 2)}[kind]
+        if rng.random() < 0.15:
+            kw["inputs"] = self.labels("u_", m)
+        if rng.random() < 0.15:
+            kw["outputs"] = self.labels("y_", p)
         if kw:
             spec["kw"] = kw
-        return self.new("nls" if static else "nld", spec, {"p": 1, "m": 1, "dt": "C", "n": 0 if static else 1}, "n")
+        return self.new(kind, spec, {"p": p, "m": m, "dt": "C", "n": n, "name": kw.get("name")}, "n")
 
     # ---------------------------------------------------------------- selection helpers
     def is_lti(self, d):
@@ -230,10 +324,8 @@ class Gen:
                 s = self.new_tf(shape[0], shape[1], dt=ddt)
             elif k == "frd":
                 s = self.new_frd()
-            elif k == "nls":
-                s = self.new_nl(True)
             else:
-                s = self.new_nl(False)
+                s = self.new_nl(k == "nls", kind=k)
         return s
 
     def partner(self, a):
@@ -448,7 +540,7 @@ class Gen:
             omega = da["omega"][:2] if da["k"] == "frd" and "omega" in da else [0.1, 1.0, 10.0]
             om = ref(self.new_arr((len(omega),), omega)) if rng.random() < 0.6 else omega
             kw = {"squeeze": rng.choice([True, False])} if fn == "frequency_response" and rng.random() < 0.3 else {}
-            self.emit(["op", self.out({"k": "resp"}), fn, [ref(a), om], kw])
+            self.emit(["op", self.out({"k": "resp", "rk": "freq"}), fn, [ref(a), om], kw])
         elif fn in ("str", "repr", "latex"):
             a = self.sys_any(("ss", "tf", "frd", "nls", "nld") if fn != "latex" else ("ss", "tf"))
             self.emit(["op", None, fn, [ref(a)], {}])
@@ -479,7 +571,19 @@ class Gen:
         A = self.new_arr((n, n), self.stable_A(n))
         B = self.new_arr((n, 1), [[1.0]] + [[0.0]] * (n - 1)) if rng.random() < 0.5 else self.new_arr((n, 1))
         eye = [[1.0 if i == j else 0.0 for j in range(n)] for i in range(n)]
-        fn = rng.choice(["ctrb", "obsv", "lyap", "dlyap", "lqr_abqr", "place", "acker", "lqr"])
+        fn = rng.choice(["ctrb", "obsv", "lyap", "dlyap", "lqr_abqr", "place", "acker", "lqr", "dlqr", "lqe",
+                         "care", "dare"])
+        if fn in ("dlqr", "lqe", "care", "dare"):
+            if fn in ("dlqr", "dare"):
+                A = self.new_arr((n, n), [[x / 5.0 for x in r] for r in self.stable_A(n)])
+            Q = self.new_arr((n, n), eye)
+            R = self.new_arr((1, 1), [[1.0]])
+            if fn == "lqe":
+                C = self.new_arr((1, n), [[1.0] + [0.0] * (n - 1)])
+                self.emit(["op", None, fn, [ref(A), ref(B), ref(C), ref(R), ref(self.new_arr((1, 1), [[2.0]]))], {}])
+            else:
+                self.emit(["op", None, fn, [ref(A), ref(B), ref(Q), ref(R)], {}])
+            return
         if fn == "ctrb":
             self.emit(["op", None, "ctrb", [ref(A), ref(B)], {}])
         elif fn == "obsv":
@@ -527,6 +631,17 @@ class Gen:
             b = self.sys_any(("ss", "tf"))
             self.emit(["op", self.out(self.res_desc(b)), fn, [ref(b)], {}])
 
+    def time_arg(self, dt=None):
+        """time vector as a caller-owned array (plain / view) or list"""
+        n = self.rng.choice([3, 5, 6])
+        h = 0.1 if dt in ("C", "N", "T", None) else dt
+        if dt == "T":
+            h = 1.0
+        T = [round(i * h, 10) for i in range(n)]
+        if self.rng.random() < 0.12:
+            return ref(self.new_list(T)), n
+        return ref(self.new_arr((n,), T)), n
+
     def op_time(self):
         rng = self.rng
         fn = rng.choice(["step_response", "impulse_response", "initial_response", "forced_response",
@@ -534,64 +649,195 @@ class Gen:
         kinds = ("ss", "tf") if fn not in ("initial_response", "input_output_response") else ("ss",)
         a = self.sys_any(kinds)
         da = self.desc[a]
-        T, nt = self.time_vec(da["dt"])
+        T, nt = self.time_arg(da["dt"])
         kw = {}
         if rng.random() < 0.25:
             kw["squeeze"] = rng.choice([True, False])
         if rng.random() < 0.2 and fn == "forced_response":
             kw["return_x"] = rng.choice([True, False])
+        if rng.random() < 0.15:
+            kw["transpose"] = True
         if fn in ("step_response", "impulse_response"):
-            args = [ref(a), ref(T)] if rng.random() < 0.7 else [ref(a)]
+            args = [ref(a), T] if rng.random() < 0.7 else [ref(a)]
+            if fn == "step_response" and da["k"] == "ss" and da.get("n") and "name" in da and rng.random() < 0.3:
+                args = [ref(a), T, self.vec(da["n"])]
+            if rng.random() < 0.25:
+                which = rng.choice(["in", "out"])
+                key = "input_indices" if which == "in" else "output_indices"
+                # by number, or by signal label (lists the caller may keep)
+                kw[key] = self.idx_list([0]) if rng.random() < 0.5 else self.own([self.sig(a, which)])
         elif fn == "initial_response":
             n = da.get("n") or 1
-            args = [ref(a), ref(T), ref(self.new_arr((n,)))]
+            args = [ref(a), T, self.vec(n)]
         else:
             m = da["m"]
-            U = self.new_arr((nt,) if m == 1 and rng.random() < 0.6 else (m, nt))
-            args = [ref(a), ref(T), ref(U)]
+            if m == 1 and rng.random() < 0.6:
+                U = self.vec(nt, listok=rng.random() < 0.3, col=False)
+            else:
+                U = ref(self.new_arr((m, nt)))
+            args = [ref(a), T, U]
             if da["k"] == "ss" and da.get("n") and rng.random() < 0.5:
-                args.append(ref(self.new_arr((da["n"],))))
-        self.emit(["op", self.out({"k": "resp"}), fn, args, kw])
+                args.append(self.vec(da["n"]))
+            if fn == "input_output_response" and rng.random() < 0.2:
+                kw["solve_ivp_kwargs"] = ref(self.new_dict({"rtol": 1e-6})) if rng.random() < 0.7 else {"rtol": 1e-6}
+            if fn == "input_output_response" and rng.random() < 0.15:
+                kw["solve_ivp_method"] = rng.choice(["RK45", "LSODA"])
+        self.emit(["op", self.out({"k": "resp", "rk": "time", "m": da["m"], "p": da["p"]}), fn, args, kw])
+
+    def params_arg(self, keys=("a", "b", "c")):
+        pd = {self.rng.choice(keys): float(self.rng.randint(4, 9))}
+        return ref(self.new_dict(pd)) if self.rng.random() < 0.5 else pd
 
     def op_nl(self):
         rng = self.rng
         r = rng.random()
-        if r < 0.45:
+        if r < 0.35:
             a = self.sys_any(("nls",))
             kw = {}
             if rng.random() < 0.5:
-                pd = {rng.choice(["a", "b"]): float(rng.randint(4, 9))}
-                kw["params"] = ref(self.new("dict", {"v": pd}, {}, "d")) if rng.random() < 0.5 else pd
-            self.emit(["op", None, "nl_call", [ref(a), rng.choice([1.0, 2.0, [3.0]])], kw])
+                kw["params"] = self.params_arg(("a", "b"))
+            u = rng.choice([1.0, 2.0, [3.0]]) if rng.random() < 0.7 else self.vec(1)
+            self.emit(["op", None, "nl_call", [ref(a), u], kw])
         elif r < 0.8:
-            a = self.sys_any(("nld",))
+            a = self.sys_any(("nld", "nld", "nld2"))
+            n, m = self.desc[a]["n"], self.desc[a]["m"]
             kw = {}
             if rng.random() < 0.5:
-                kw["params"] = {rng.choice(["a", "c"]): float(rng.randint(4, 9))}
-            fn = rng.choice(["nl_output", "nl_dynamics", "linearize", "input_output_response"])
+                kw["params"] = self.params_arg(("a", "c"))
+            fn = rng.choice(["nl_output", "nl_dynamics", "linearize", "m_linearize", "input_output_response"])
+            u = [1.0] if rng.random() < 0.4 else self.vec(m)
             if fn in ("nl_output", "nl_dynamics"):
-                self.emit(["op", None, fn, [ref(a), 0, ref(self.new_arr((1,))), [1.0]], kw])
-            elif fn == "linearize":
-                self.emit(["op", self.out({"k": "ss", "p": 1, "m": 1, "dt": "C", "n": 1}), fn,
-                           [ref(a), ref(self.new_arr((1,))), [1.0]], kw])
+                self.emit(["op", None, fn, [ref(a), 0, self.vec(n), u], kw])
+            elif fn in ("linearize", "m_linearize"):
+                if rng.random() < 0.2:
+                    kw["name"] = self.fresh("L")
+                self.emit(["op", self.out({"k": "ss", "p": self.desc[a]["p"], "m": m, "dt": "C", "n": n}), fn,
+                           [ref(a), self.vec(n), u], kw])
             else:
-                T, nt = self.time_vec("C")
-                self.emit(["op", self.out({"k": "resp"}), fn, [ref(a), ref(T), ref(self.new_arr((nt,))),
-                                                               ref(self.new_arr((1,)))], kw])
+                T, nt = self.time_arg("C")
+                if rng.random() < 0.2:
+                    kw["solve_ivp_kwargs"] = ref(self.new_dict({"rtol": 1e-6, "atol": 1e-8}))
+                self.emit(["op", self.out({"k": "resp", "rk": "time", "m": m, "p": self.desc[a]["p"]}), fn,
+                           [ref(a), T, self.vec(nt, listok=False, col=False), self.vec(n)], kw])
         else:
-            # interconnect of two named SISO systems
-            P = self.new_ss(1, 1, dt="C", name=self.fresh("P"))
-            C = self.new_tf(1, 1, dt="C", name=self.fresh("C")) if rng.random() < 0.5 else self.new_nl(False)
-            pn = self.desc[P]["name"]
-            cn = self.steps_name(C)
-            if cn is None:
-                return
-            kw = {"connections": [["%s.u[0]" % pn, "%s.y[0]" % cn], ["%s.u[0]" % cn, "-%s.y[0]" % pn]],
-                  "inplist": ["%s.u[0]" % cn], "outlist": ["%s.y[0]" % pn]}
-            if rng.random() < 0.5:
-                kw["name"] = self.fresh("IC")
-            self.emit(["op", self.out({"k": "nlx", "p": 1, "m": 1, "dt": "C"}), "interconnect",
-                       [{"lst": [ref(P), ref(C)]}], kw])
+            self.op_interconnect()
+
+    def own(self, lst):
+        """a (possibly nested) list argument: literal, or a list the caller keeps"""
+        return ref(self.new_list(lst)) if self.rng.random() < 0.5 else lst
+
+    def op_interconnect(self):
+        # interconnect of two named systems; the specification lists may be caller-owned
+        rng = self.rng
+        wide = rng.random() < 0.35         # plant with a second input / output that stays unconnected
+        P = self.new_ss(2, 2, dt="C", name=self.fresh("P")) if wide else self.new_ss(1, 1, dt="C", name=self.fresh("P"))
+        C = self.new_tf(1, 1, dt="C", name=self.fresh("C")) if rng.random() < 0.5 else self.new_nl(False)
+        pn = self.desc[P]["name"]
+        cn = self.steps_name(C)
+        if cn is None:
+            return
+        pin, pout, cin, cout = self.sig(P, "in"), self.sig(P, "out"), self.sig(C, "in"), self.sig(C, "out")
+        kw = {"connections": self.own([["%s.%s" % (pn, pin), "%s.%s" % (cn, cout)],
+                                       ["%s.%s" % (cn, cin), "-%s.%s" % (pn, pout)]]),
+              "inplist": self.own(["%s.%s" % (cn, cin)]), "outlist": self.own(["%s.%s" % (pn, pout)])}
+        if rng.random() < 0.5:
+            kw["name"] = self.fresh("IC")
+        if rng.random() < 0.4:
+            kw["inputs"] = self.own(["r"])
+        if rng.random() < 0.4:
+            kw["outputs"] = self.own(["y"])
+        if rng.random() < 0.2:
+            kw["params"] = self.params_arg()
+        if wide:
+            r = rng.random()
+            if r < 0.4:
+                kw["add_unused"] = True
+                if rng.random() < 0.5:
+                    kw.setdefault("inputs", self.own(["r"]))
+                    kw.setdefault("outputs", self.own(["y"]))
+            elif r < 0.75:
+                kw["ignore_inputs"] = self.own(["%s.%s" % (pn, self.sig(P, "in", 1))])
+                kw["ignore_outputs"] = self.own(["%s.%s" % (pn, self.sig(P, "out", 1))])
+            else:
+                kw["check_unused"] = False
+        syslist = {"lst": [ref(P), ref(C)]}
+        if rng.random() < 0.4:
+            syslist = ref(self.new("list", {"v": [ref(P), ref(C)]}, {}, "l"))
+        self.emit(["op", self.out({"k": "nlx", "p": 1, "m": 1, "dt": "C"}), "interconnect", [syslist], kw])
+
+    def sig(self, slot, which, j=0):
+        """j-th input / output signal name of a constructed system (labels may be given)"""
+        dflt = ("u[%d]" if which == "in" else "y[%d]") % j
+        for st in self.all_steps():
+            if st[0] == "new" and st[1] == slot:
+                lab = st[3].get("kw", {}).get("inputs" if which == "in" else "outputs")
+                if lab is None:
+                    return dflt
+                if isinstance(lab, dict):
+                    for s2 in self.all_steps():
+                        if s2[0] == "new" and s2[1] == lab["s"]:
+                            return s2[3]["v"][j]
+                return lab[j]
+        return dflt
+
+    # ---------------------------------------------------------------- operating points
+    def op_findop(self):
+        """find_operating_point in all its constraint forms; the initial guess / targets / index
+        lists / root_kwargs are objects the caller owns (float and integer ndarrays, views,
+        column arrays, lists)"""
+        rng = self.rng
+        r = rng.random()
+        if r < 0.3:
+            a = self.sys_any(("nld",))
+        elif r < 0.75:
+            a = self.sys_any(("nld2",))
+        else:
+            a = self.pick(lambda d: d["k"] == "ss" and "name" in d and d["dt"] == "C" and d.get("n")) \
+                or self.new_ss(dt="C")
+        da = self.desc[a]
+        n, m, p = da["n"], da["m"], da["p"]
+        x0, u0 = self.vec(n), self.vec(m)
+        y0 = self.vec(p)
+        forms = ["x0u0", "x0u0y0", "iu", "iu", "iy", "iy", "ix", "idx", "mixed"]
+        form = rng.choice(forms)
+        args, kw = [ref(a), x0, u0], {}
+        if form == "x0u0y0":
+            args.append(y0)
+        elif form == "iu":
+            kw["iu"] = self.idx_list(list(range(m)))
+        elif form == "iy":
+            args.append(y0)
+            kw["iy"] = self.idx_list(sorted(rng.sample(range(p), min(p, m))))
+        elif form == "ix":
+            j = rng.randrange(n)
+            kw["ix"] = self.idx_list([j])           # state j held, the input is free
+            if n > 1 and rng.random() < 0.5:        # ... or input held too, one derivative constrained
+                kw["idx"] = self.idx_list([i for i in range(n) if i != j])
+                kw["iu"] = self.idx_list(list(range(m)))
+        elif form == "idx":
+            kw["idx"] = self.idx_list(list(range(n)))
+            kw["dx0"] = self.vec(n, [0.0] * n if rng.random() < 0.6 else None, col=False)
+            kw["iu"] = self.idx_list(list(range(m)))
+        elif form == "mixed":
+            for key, size in rng.sample([("iu", m), ("iy", p), ("ix", n), ("idx", n)], rng.choice([1, 2, 3])):
+                kw[key] = self.idx_list(sorted(rng.sample(range(size), rng.randint(0 if key == "iu" else 1, size))))
+            if "iy" in kw or rng.random() < 0.3:
+                args.append(y0)
+        if rng.random() < 0.15:          # keyword form of the same call
+            names = ["initial_state", "inputs", "outputs"]
+            for nm, val in zip(names, args[1:]):
+                kw[nm] = val
+            args = args[:1]
+        if rng.random() < 0.25:
+            kw["root_method"] = rng.choice(["lm", "hybr"])
+        if rng.random() < 0.2:
+            rk = rng.choice([{"tol": 1e-10}, {"options": {"xtol": 1e-10}}, {}])
+            kw["root_kwargs"] = ref(self.new_dict(rk)) if rng.random() < 0.7 else rk
+        if rng.random() < 0.2:
+            kw["return_result"] = True
+        if da["k"] != "ss" and rng.random() < 0.25:
+            kw["params"] = self.params_arg()
+        self.emit(["op", self.out({"k": "oppt"}), "find_operating_point", args, kw])
 
     def steps_name(self, slot):
         for st in self.all_steps():
@@ -615,11 +861,321 @@ class Gen:
             args = [ref(a)]
         self.emit(["op", None, fn, args, {}])
 
-    def op_plot(self):
+    # ---------------------------------------------------------------- plotting
+    def style_kw(self, kw, p=0.45):
+        """matplotlib line keywords passed through by the plotting functions"""
         rng = self.rng
-        fn = rng.choice(sorted(F.PLOT_OPS))
+        if rng.random() < p:
+            for key, vals in rng.sample([("color", ["k", "tab:green", "m"]), ("linewidth", [3, 0.5]),
+                                         ("linestyle", [":", "-."])], rng.choice([1, 1, 2, 3])):
+                kw[key] = rng.choice(vals)
+        return kw
+
+    def time_resp(self):
+        """a time response in the pool (with its inputs recorded), made on the spot when missing"""
+        r = self.pick(lambda d: d["k"] == "resp" and d.get("rk") == "time")
+        if r is None or self.rng.random() < 0.4:
+            mark = len(self.cur)
+            self.op_time()
+            st = self.cur[-1] if len(self.cur) > mark else None
+            if st is not None and st[0] == "op" and st[1] is not None:
+                r = st[1]
+        return r
+
+    def plot_time(self):
+        rng = self.rng
+        kw = {}
+        r = rng.random()
+        if r < 0.15:      # response computed and plotted in one go
+            a = self.sys_any(("ss", "tf"), dt=("C",))
+            if rng.random() < 0.7:
+                kw["plot_inputs"] = rng.choice([True, "overlay"])
+            self.emit(["op", None, "resp_plot", [ref(a)], self.style_kw(kw)])
+            return
+        resp = self.time_resp()
+        if resp is None:
+            return
+        if r < 0.27:      # several responses combined into one
+            other = self.pick(lambda d: d["k"] == "resp" and d.get("rk") == "time"
+                              and (d["m"], d["p"]) == (self.desc[resp]["m"], self.desc[resp]["p"]))
+            lst = [ref(resp), ref(other or resp)]
+            lst = ref(self.new("list", {"v": lst}, {}, "l")) if rng.random() < 0.5 else {"lst": lst}
+            ckw = {"trace_labels": self.own(["one", "two"])} if rng.random() < 0.4 else {}
+            out = self.out(dict(self.desc[resp]))
+            self.emit(["op", out, "combine_time_responses", [lst], ckw])
+            resp = out
+        if rng.random() < 0.65:
+            kw["plot_inputs"] = rng.choice([True, True, "overlay", False, None])
+        for key, pr in (("overlay_signals", 0.25), ("overlay_traces", 0.15), ("transpose", 0.12)):
+            if rng.random() < pr:
+                kw[key] = True
+        if rng.random() < 0.1:
+            kw["title"] = "response"
+        if rng.random() < 0.1:
+            kw["legend_loc"] = rng.choice(["upper left", False])
+        if rng.random() < 0.1:
+            kw["sharey"] = rng.choice(["row", "all", False])
+        args = [ref(resp)]
+        if rng.random() < 0.1:
+            args.append(rng.choice(["r--", "k"]))
+        else:
+            self.style_kw(kw)
+        self.emit(["op", None, rng.choice(["m_plot", "m_plot", "time_response_plot"]), args, kw])
+
+    def omega_arg(self):
+        om = [0.1, 1.0, 10.0] if self.rng.random() < 0.6 else [0.05, 0.2, 0.8, 3.0, 12.0]
+        return ref(self.new_arr((len(om),), om)) if self.rng.random() < 0.7 else om
+
+    def plot_freq(self):
+        rng = self.rng
+        kind = rng.choice(["bode"] * 4 + ["nyquist"] * 3 + ["nichols", "sv", "sv", "fresp", "nyqresp"]
+                          + (["gangof4"] if self.tier != "quick" else []))
+        a = self.sys_any(("ss", "tf"), siso=True, dt=("C",) if rng.random() < 0.8 else None)
+        kw = {}
+        if kind == "bode":
+            data = ref(a)
+            if rng.random() < 0.3:
+                b = self.sys_any(("ss", "tf"), siso=True, dt=(self.desc[a]["dt"],))
+                data = {"lst": [ref(a), ref(b)]} if rng.random() < 0.5 else \
+                    ref(self.new("list", {"v": [ref(a), ref(b)]}, {}, "l"))
+            args = [data] + ([self.omega_arg()] if rng.random() < 0.4 else [])
+            for key, vals, pr in (("dB", [True, False], 0.2), ("Hz", [True], 0.15), ("deg", [False], 0.15),
+                                  ("plot_phase", [False], 0.15), ("display_margins", [True, "overlay"], 0.15),
+                                  ("wrap_phase", [True], 0.1), ("initial_phase", [0], 0.1), ("title", ["T"], 0.1),
+                                  ("omega_num", [20], 0.15)):
+                if rng.random() < pr:
+                    kw[key] = rng.choice(vals)
+            if len(args) == 1 and rng.random() < 0.25:
+                kw["omega_limits"] = self.own([0.1, 100.0])
+            self.emit(["op", None, "bode_plot", args, self.style_kw(kw, 0.3)])
+        elif kind == "nyquist":
+            args = [ref(a)] + ([self.omega_arg()] if rng.random() < 0.3 else [])
+            if rng.random() < 0.35:
+                kw["mirror_style"] = rng.choice([self.own(["-.", ":"]), False, ":"])
+            if rng.random() < 0.25:
+                kw["primary_style"] = rng.choice([self.own(["-", ":"]), "-"])
+            if rng.random() < 0.3:
+                kw["arrows"] = rng.choice([3, self.own([0.3, 0.6])])
+            for key, vals, pr in (("indent_direction", ["left"], 0.1), ("unit_circle", [True], 0.1),
+                                  ("color", ["k"], 0.2), ("label_freq", [2], 0.1), ("title", ["N"], 0.1)):
+                if rng.random() < pr:
+                    kw[key] = rng.choice(vals)
+            if rng.random() < 0.1:
+                kw["mt_circles"] = self.own([1.5, 2.0])
+            self.emit(["op", None, "nyquist_plot", args, kw])
+        elif kind == "nichols":
+            args = [ref(a)] + ([self.omega_arg()] if rng.random() < 0.4 else [])
+            if rng.random() < 0.3:
+                kw["grid"] = False
+            self.emit(["op", None, "nichols_plot", args, self.style_kw(kw, 0.3)])
+        elif kind == "sv":
+            b = self.sys_any(("ss", "tf"), dt=("C",))
+            args = [ref(b)] + ([self.omega_arg()] if rng.random() < 0.5 else [])
+            if rng.random() < 0.5:
+                out = self.out({"k": "resp", "rk": "sv"})
+                self.emit(["op", out, "singular_values_response", args, {}])
+                self.emit(["op", None, "m_plot", [ref(out)], self.style_kw(kw, 0.3)])
+            else:
+                self.emit(["op", None, "singular_values_plot", args, self.style_kw(kw, 0.3)])
+        elif kind == "fresp":
+            r = self.pick(lambda d: d["k"] == "resp" and d.get("rk") == "freq")
+            if r is None:
+                r = self.out({"k": "resp", "rk": "freq"})
+                self.emit(["op", r, "frequency_response", [ref(a), self.omega_arg()], {}])
+            self.emit(["op", None, "m_plot", [ref(r)], self.style_kw(kw, 0.3)])
+        elif kind == "nyqresp":
+            out = self.out({"k": "resp", "rk": "nyq"})
+            args = [ref(a)] + ([self.omega_arg()] if rng.random() < 0.5 else [])
+            self.emit(["op", out, "nyquist_response", args, {}])
+            if rng.random() < 0.7:
+                self.emit(["op", None, "m_plot", [ref(out)], kw])
+        else:
+            b = self.sys_any(("tf",), siso=True, dt=("C",))
+            args = [ref(a), ref(b)] + ([self.omega_arg()] if rng.random() < 0.5 else [])
+            self.emit(["op", None, "gangof4_plot", args, {}])
+
+    def plot_pz(self):
+        rng = self.rng
+        kind = rng.choice(["pz", "pz", "pzmap", "rlocus", "rlocus", "rlmap", "df"]
+                          + (["phase"] if self.tier != "quick" else []))
         a = self.sys_any(("ss", "tf"), siso=True, dt=("C",))
-        self.emit(["op", None, fn, [ref(a)], {}])
+        kw = {}
+        if kind == "pz":
+            for key, vals, pr in (("grid", [True, False], 0.3), ("color", ["k"], 0.2), ("marker_size", [4], 0.15),
+                                  ("title", ["PZ"], 0.1)):
+                if rng.random() < pr:
+                    kw[key] = rng.choice(vals)
+            if rng.random() < 0.2:
+                kw["xlim"] = self.own([-5, 1])
+            self.emit(["op", None, "pzmap_plot", [ref(a)], kw])
+        elif kind == "pzmap":
+            out = self.out({"k": "resp", "rk": "pz"})
+            self.emit(["op", out, "pole_zero_map", [ref(a)], {}])
+            self.emit(["op", None, "m_plot", [ref(out)], kw])
+        elif kind in ("rlocus", "rlmap"):
+            g = [0.1, 1.0, 5.0, 20.0]
+            args = [ref(a)] + ([ref(self.new_arr((4,), g)) if rng.random() < 0.7 else g] if rng.random() < 0.6 else [])
+            if kind == "rlocus":
+                if rng.random() < 0.3:
+                    kw["grid"] = rng.choice([True, False])
+                self.emit(["op", None, "root_locus_plot", args, kw])
+            else:
+                out = self.out({"k": "resp", "rk": "rl"})
+                self.emit(["op", out, "root_locus_map", args, {}])
+                self.emit(["op", None, "m_plot", [ref(out)], kw])
+        elif kind == "df":
+            A = [0.5, 1.0, 2.0, 4.0]
+            H = self.new_tf(1, 1, dt="C") if rng.random() < 0.5 else a
+            self.emit(["op", None, "describing_function_plot",
+                       [ref(H), rng.choice(["sat", "relay"]), 1.0, ref(self.new_arr((4,), A))] +
+                       ([self.omega_arg()] if rng.random() < 0.3 else []), {}])
+        else:
+            n2 = self.sys_any(("nld2",))
+            self.emit(["op", None, "phase_plane_plot", [ref(n2), self.own([-2, 2, -2, 2]), 1],
+                       {"plot_separatrices": False, "gridspec": self.own([3, 3])}])
+
+    def op_plot(self):
+        r = self.rng.random()
+        if r < 0.55:
+            self.plot_time()
+        elif r < 0.85:
+            self.plot_freq()
+        else:
+            self.plot_pz()
+
+    # ---------------------------------------------------------------- more caller-owned arguments
+    def op_statefbk(self):
+        rng = self.rng
+        n = rng.choice([1, 2, 2, 3])
+        m = rng.choice([1, 1, 2])
+        dt = rng.choice(["C", "C", 0.1])
+        A = self.stable_A(n)
+        if dt != "C":
+            A = [[x / 5.0 for x in row] for row in A]
+        eye = [[1.0 if i == j else 0.0 for j in range(n)] for i in range(n)]
+        spec = {"abcd": [A, self.mat(n, m), eye, [[0.0] * m for _ in range(n)]]}
+        if dt != "C":
+            spec["dt"] = dt
+        if rng.random() < 0.5:
+            spec["kw"] = {"name": self.fresh("S")}
+        sysn = self.new("ss", spec, {"p": n, "m": m, "n": n, "dt": dt, "name": None}, "s")
+        kw = {}
+        if rng.random() < 0.5:
+            K = ref(self.new_arr((m, n)))
+            args = [ref(sysn), K]
+            if rng.random() < 0.3:
+                args = [ref(sysn), ref(self.new_arr((m, n + 1)))]
+                kw["integral_action"] = ref(self.new_arr((1, n), [[1.0] + [0.0] * (n - 1)]))
+            if rng.random() < 0.3:
+                kw["xd_labels"] = self.labels("xd", n)
+            if rng.random() < 0.3:
+                kw["ud_labels"] = self.labels("ud", m)
+            if rng.random() < 0.3:
+                kw["controller_type"] = rng.choice(["linear", "nonlinear"])
+            if rng.random() < 0.2:
+                kw["name"] = self.fresh("CT")
+            if rng.random() < 0.15:      # gain scheduling: list of gains and array of points
+                pts = ref(self.new_arr((2, 1), [[0.0], [1.0]]))
+                gains = [ref(self.new_arr((m, n))), ref(self.new_arr((m, n)))]
+                gains = ref(self.new("list", {"v": gains}, {}, "l")) if rng.random() < 0.5 else {"lst": gains}
+                args = [ref(sysn), {"tup": [gains, pts]}]
+                kw = {"gainsched_indices": self.idx_list([0])}
+            self.emit(["op", self.out({"k": "pair"}), "create_statefbk_iosystem", args, kw])
+        else:
+            C = self.mat(1, n)
+            spec2 = dict(spec, abcd=[A, spec["abcd"][1], C, [[0.0] * m]])
+            spec2.pop("kw", None)
+            s2 = self.new("ss", spec2, {"p": 1, "m": m, "n": n, "dt": dt, "name": None}, "s")
+            QN = ref(self.new_arr((m, m), [[1.0 if i == j else 0.0 for j in range(m)] for i in range(m)]))
+            RN = ref(self.new_arr((1, 1), [[1.0]]))
+            if rng.random() < 0.3:
+                kw["P0"] = ref(self.new_arr((n, n), eye))
+            if rng.random() < 0.3:
+                kw["control_labels" if rng.random() < 0.5 else "measurement_labels"] = \
+                    self.labels("w", m if "control_labels" not in kw else 1)
+            self.emit(["op", self.out({"k": "nlx", "p": n, "m": 1 + m, "dt": dt}), "create_estimator_iosystem",
+                       [ref(s2), QN, RN], kw])
+
+    def op_ident(self):
+        """functions that take measured data / gain arrays"""
+        rng = self.rng
+        fn = rng.choice(["markov", "eigensys_realization", "correlation", "step_info_arrays", "describing_function",
+                         "margin_arrays", "stability_margins_arrays", "lti_dynamics", "lti_output", "tfdata",
+                         "ssdata", "sample_system", "model_reduction"])
+        if fn == "markov":
+            N = rng.choice([6, 8])
+            Y = [round(0.5 ** i, 6) for i in range(N)]
+            U = [1.0] + [0.0] * (N - 1)
+            if rng.random() < 0.5:
+                Y, U = self.new_arr((1, N), [Y]), self.new_arr((1, N), [U])
+            else:
+                Y, U = self.new_arr((N,), Y), self.new_arr((N,), U)
+            self.emit(["op", None, "markov", [ref(Y), ref(U), rng.choice([2, 3])],
+                       {"truncate": True} if rng.random() < 0.3 else {}])
+        elif fn == "eigensys_realization":
+            N = 9
+            Y = self.new_arr((N,), [0.0] + [round(0.5 ** i, 6) for i in range(N - 1)])
+            self.emit(["op", None, fn, [ref(Y), rng.choice([1, 2])], {"dt": 0.1} if rng.random() < 0.3 else {}])
+        elif fn == "correlation":
+            N = rng.choice([4, 6])
+            T = self.new_arr((N,), [round(0.1 * i, 10) for i in range(N)])
+            args = [ref(T), ref(self.new_arr((N,)))] + ([ref(self.new_arr((N,)))] if rng.random() < 0.4 else [])
+            self.emit(["op", None, fn, args, {}])
+        elif fn == "step_info_arrays":
+            y = [0.0, 0.5, 0.8, 0.95, 1.05, 1.0, 1.0]
+            T = self.new_arr((7,), [float(i) for i in range(7)])
+            kw = {"RiseTimeLimits": self.own([0.2, 0.8])} if rng.random() < 0.3 else {}
+            self.emit(["op", None, fn, [ref(self.new_arr((7,), y)), ref(T)], kw])
+        elif fn == "describing_function":
+            A = [0.5, 1.0, 1.5, 2.0, 4.0][:rng.choice([2, 3, 5])]
+            if rng.random() < 0.3:
+                A = A[1:]
+            arg = ref(self.new_arr((len(A),), A)) if rng.random() < 0.8 else A
+            self.emit(["op", None, fn, [rng.choice(["sat", "relay", "backlash"]), rng.choice([1.0, 0.5]), arg],
+                       {"num_points": 50} if rng.random() < 0.3 else {}])
+        elif fn in ("margin_arrays", "stability_margins_arrays"):
+            w = [0.1, 0.5, 1.0, 2.0, 5.0, 10.0]
+            mag = [round(4.0 / (1 + x * x), 6) for x in w]
+            ph = [round(-1.5 * x, 6) for x in w]
+            self.emit(["op", None, fn, [ref(self.new_arr((6,), mag)), ref(self.new_arr((6,), ph)),
+                                        ref(self.new_arr((6,), w))], {}])
+        elif fn in ("lti_dynamics", "lti_output"):
+            a = self.pick(lambda d: d["k"] == "ss" and "name" in d and d.get("n")) or self.new_ss()
+            da = self.desc[a]
+            self.emit(["op", None, fn, [ref(a), 0, self.vec(da["n"]), self.vec(da["m"])], {}])
+        elif fn in ("tfdata", "ssdata"):
+            a = self.sys_any(("ss", "tf"))
+            self.emit(["op", self.out({"k": "data"}), fn, [ref(a)], {}])
+        elif fn == "sample_system":
+            a = self.sys_any(("ss", "tf"), dt=("C",), siso=True)
+            kw = {"method": rng.choice(["zoh", "bilinear", "gbt", "matched" if self.desc[a]["k"] == "tf" else "foh"])}
+            if kw["method"] == "gbt":
+                kw["alpha"] = 0.5
+            if kw["method"] == "bilinear" and rng.random() < 0.5:
+                kw["prewarp_frequency"] = 1.0
+            if rng.random() < 0.3:
+                kw["name"] = self.fresh("SD")
+            d = self.res_desc(a); d["dt"] = 0.1
+            self.emit(["op", self.out(d), fn, [ref(a), 0.1], kw])
+        else:
+            a = self.pick(lambda d: d["k"] == "ss" and "name" in d and (d.get("n") or 0) >= 2 and d["dt"] == "C") \
+                or self.new_ss(2, 2, dt="C")
+            da = self.desc[a]
+            kw = {}
+            r = rng.random()
+            if r < 0.35 and da["n"] >= 2:
+                kw["elim_states"] = self.idx_list([da["n"] - 1])
+            elif r < 0.6 and da["n"] >= 2:
+                kw["keep_states"] = self.idx_list(list(range(da["n"] - 1)))
+            elif r < 0.8 and da["m"] > 1:
+                kw["keep_inputs"] = self.idx_list([0])
+            elif da["p"] > 1:
+                kw["elim_outputs"] = self.idx_list([0])
+            else:
+                kw["elim_states"] = self.idx_list([0])
+            kw["method"] = rng.choice(["truncate", "matchdc"])
+            kw["warn_unstable"] = False
+            self.emit(["op", self.out({"k": "ssx"}), "model_reduction", [ref(a)], kw])
 
     def op_objarr(self):
         self.new_tf_objarr()
@@ -724,7 +1280,12 @@ class Gen:
                  "step_response", "forced_response", "ss2tf", "tf2ss", "series", "parallel", "feedback", "str",
                  "repr", "nl_call", "nl_output", "stability_margins", "m_freqresp", "c2d", "ss", "tf",
                  "initial_response", "linearize", "input_output_response", "m_append", "append", "negate", "frd",
-                 "unwrap", "connect", "minreal", "norm", "damp", "m_copy", "impulse_response", "interconnect")
+                 "unwrap", "connect", "minreal", "norm", "damp", "m_copy", "impulse_response", "interconnect",
+                 "find_operating_point", "m_linearize", "nl_dynamics", "m_plot", "time_response_plot", "resp_plot",
+                 "bode_plot", "nyquist_plot", "pzmap_plot", "nichols_plot", "root_locus_plot",
+                 "singular_values_plot", "create_statefbk_iosystem", "create_estimator_iosystem",
+                 "describing_function", "markov", "margin_arrays", "sample_system", "model_reduction",
+                 "lti_dynamics", "lti_output", "nyquist_response", "combine_time_responses")
 
     def add_probe(self):
         """turn a freshly generated library step into a probe (constructors stay as they are)"""
@@ -756,7 +1317,8 @@ class Gen:
     LIB = [("op_arith", 10), ("op_div", 2), ("op_unary", 4), ("op_append", 5), ("op_feedback", 4),
            ("op_bdalg", 9), ("op_connect", 1), ("op_convert", 9), ("op_eval", 9), ("op_margins", 3),
            ("op_matrix", 3), ("op_transform", 3), ("op_time", 8), ("op_nl", 7), ("op_util", 4),
-           ("op_plot", 0.5), ("op_objarr", 2)]
+           ("op_plot", 1.5), ("op_objarr", 2), ("op_findop", 4), ("op_statefbk", 2), ("op_ident", 4),
+           ("op_interconnect", 2)]
 
     def lib_step(self):
         names = [n for n, _ in self.LIB]
@@ -827,17 +1389,38 @@ def gen_nl(rng, tier):
     return {"type": "nl", "subs": subs, "static": static, "top": top, "calls": calls}
 
 
+def gen_plot(rng, tier):
+    """short histories made of plotting calls (time responses with their inputs, frequency
+    plots, pole/zero plots; line-style keywords), repeated as probes, with configuration calls in
+    between"""
+    g = Gen(rng, tier)
+    g.LIB = [("op_plot", 7), ("op_time", 2), ("op_eval", 1)]
+    return {"type": "hist", "hist": g.history(rng.choice([3, 4, 6]), rng.choice([0.0, 0.15, 0.3]))}
+
+
+def gen_args(rng, tier):
+    """histories concentrated on functions that take caller-owned arrays / lists / dictionaries"""
+    g = Gen(rng, tier)
+    g.LIB = [("op_findop", 6), ("op_nl", 4), ("op_time", 3), ("op_statefbk", 2), ("op_ident", 3),
+             ("op_matrix", 2), ("op_transform", 1), ("op_convert", 1), ("op_interconnect", 3)]
+    return {"type": "hist", "hist": g.history(rng.choice([5, 8, 12]), rng.choice([0.0, 0.1, 0.25]))}
+
+
 def gen_case(rng, tier):
     r = rng.random()
-    if r < 0.68:
+    if r < 0.57:
         return gen_hist(rng, tier)
-    if r < 0.85:
+    if r < 0.70:
         return gen_cfg_only(rng, tier)
-    return gen_nl(rng, tier)
+    if r < 0.81:
+        return gen_nl(rng, tier)
+    if r < 0.92:
+        return gen_args(rng, tier)
+    return gen_plot(rng, tier)
 
 
 def generate(rng, tier):
-    n = 600 if tier == "quick" else 6000
+    n = 720 if tier == "quick" else 6000
     return [gen_case(rng, tier) for _ in range(n)]
 
 
@@ -874,6 +1457,40 @@ def corpus():
         H(["with", [["control.default_dt", "~i1"], ["bogus.key", "~i2"]], []]),
         # reset_defaults through an alias of an import-time key
         H(["set", "deprecated.control.squeeze_time_response", "control.default_dt"], ["reset"]),
+        # find_operating_point(root_method=..., root_kwargs=d) writes 'method' into the caller's d
+        H(["new", "n", "nld", {"params": {"a": 2.0}}], ["new", "d", "dict", {"v": {"tol": 1e-10}}],
+          ["op", "r", "find_operating_point", [ref("n"), [1.0], [2.0]], {"root_method": "lm", "root_kwargs": ref("d")}]),
+        # interconnect(..., inputs=ins, outputs=outs, add_unused=True) appends to the caller's lists
+        H(["new", "P", "ss", {"abcd": [[[-1.0]], [[1.0, 1.0]], [[1.0], [2.0]], [[0.0, 0.0], [0.0, 0.0]]],
+                              "kw": {"name": "P", "inputs": ["u", "d"], "outputs": ["y", "z"]}}],
+          tf("C", [1.0], [1.0, 1.0], name="C", inputs="e", outputs="u"),
+          ["new", "ins", "list", {"v": ["r"]}], ["new", "outs", "list", {"v": ["y"]}],
+          ["op", "ic", "interconnect", [{"lst": [ref("P"), ref("C")]}],
+           {"connections": [["P.u", "C.u"]], "inplist": ["C.e"], "outlist": ["P.y"], "inputs": ref("ins"),
+            "outputs": ref("outs"), "add_unused": True}]),
+        # classes added after the seeded changes (agree on the unchanged code):
+        # - a time response plotted with its inputs and line keywords, the same default plot before
+        #   and after, reset in between (input-trace properties are built from a configuration entry)
+        H(tf("G", [1.0], [1.0, 2.0, 1.0], name="G"),
+          ["new", "T", "arr", {"v": [0.0, 0.5, 1.0, 1.5, 2.0]}], ["new", "U", "arr", {"v": [0.0, 1.0, 1.0, 0.0, -1.0]}],
+          ["op", "resp", "forced_response", [ref("G"), ref("T"), ref("U")], {}],
+          ["probe", "p1", "m_plot", [ref("resp")], {"plot_inputs": True}],
+          ["op", None, "m_plot", [ref("resp")], {"plot_inputs": True, "color": "k", "linewidth": 4, "linestyle": ":"}],
+          ["probe", "p1", "m_plot", [ref("resp")], {"plot_inputs": True}],
+          ["reset"],
+          ["op", None, "time_response_plot", [ref("resp")], {"plot_inputs": "overlay", "linestyle": "-."}],
+          ["reset"],
+          ["probe", "p1", "m_plot", [ref("resp")], {"plot_inputs": True}]),
+        # - find_operating_point, index-constrained form, float arrays / a reshaped view / a list as
+        #   initial guess and target (the root-finding callback works on copies)
+        H(["new", "n", "nld2", {"params": {"a": 2.0}}],
+          ["new", "x0", "arr", {"v": [0.1, 0.0]}], ["new", "ub", "arr", {"v": [[0.0]]}],
+          ["new", "u0", "view", {"base": ref("ub"), "how": "reshape", "shape": [1]}],
+          ["new", "y0", "list", {"v": [0.3, 0.0]}],
+          ["probe", "p1", "find_operating_point", [ref("n"), ref("x0"), ref("u0"), ref("y0")], {"iy": [0]}],
+          ["op", "r2", "find_operating_point", [ref("n"), ref("x0"), ref("u0")], {"iu": [0]}],
+          ["op", "r3", "find_operating_point", [ref("n"), ref("x0"), ref("u0")], {"ix": [0], "idx": [1], "iu": [0]}],
+          ["probe", "p1", "find_operating_point", [ref("n"), ref("x0"), ref("u0"), ref("y0")], {"iy": [0]}]),
     ] + systematic()
 
 
